@@ -70,6 +70,7 @@ type Engine struct {
 	summarise   map[string]bool
 	sumMemo     map[string]*sumMemo
 	deadline    time.Time
+	runEnd      time.Time // end of the whole run's time budget (zero = none)
 	curRes      *JobResult
 	recordFuncs bool
 	choiceCount int
@@ -420,6 +421,7 @@ func main() {
 	tags := flag.String("tags", "", "build tags")
 	dump := flag.String("dump", "", "write solver transcript of worker 0 here")
 	cpuprof := flag.String("cpuprofile", "", "write a CPU profile here")
+	budget := flag.Int("budget", 0, "time budget of the whole run in seconds (0 = none): when it is used up no further job is started and running jobs are cut")
 	flag.Parse()
 	if *cpuprof != "" {
 		pf, _ := os.Create(*cpuprof)
@@ -489,6 +491,13 @@ func main() {
 			e.eagerInit()
 			for i := range ch {
 				job := jobs[i]
+				if *budget > 0 {
+					e.runEnd = start.Add(time.Duration(*budget) * time.Second)
+					if !time.Now().Before(e.runEnd) {
+						results[i] = &JobResult{Harness: job.Harness, Params: job.Params, NotRun: true}
+						continue
+					}
+				}
 				e.summarise = map[string]bool{}
 				for _, s := range job.Summarise {
 					e.summarise[s] = true
